@@ -12,7 +12,6 @@ NOT_APPLICABLE = {
     'C12': 'pending: header-machine harnesses not yet registered',
     'C13': 'Interning through FxHashMap<Arc<str>,u32>::entry and format!-based source-root joining over call histories on '
            'string pools: hash maps with symbolic keys and std::fmt are outside reach; nothing numeric remains.',
-    'C14': 'pending: Hermes harnesses not yet registered',
     'C17': 'Needs a symbolic-offset substring through the identifier scanner for every token of the backwards walk; four '
            'prototype configurations (down to a 14-byte line with the scanner stubbed and per-loop bounds) exceeded 20 min.',
     'C18': 'Discovery is BufReader::lines + String + starts_with over >= 22-byte texts; data URLs go through serde_json, '
